@@ -11,8 +11,9 @@ from .. import apilevel as A, docx_builder as B, gen_html, gen_xml, oracle_html 
 # through the public API: paragraphs and runs whose styles are mapped to nested NON-fresh paths (two run styles share one
 # path), with empty runs and empty paragraphs in between; unmapped paragraphs become the default fresh p
 API_MAP = "\n".join(["p.Q => blockquote > div.q", "p.C => pre:separator('\\n')", "p.D => div.q", "p.N => ul|ol > li",
+                      "p.F => section:fresh:separator('|')",       # :fresh wins over :separator: such elements never merge
                       "r.X => span.x", "r.Y => em > span.y", "r.Z => span.x", "r.W => em"])
-API_PSTYLES = [None, None, "Q", "Q", "C", "C", "D", "N"]
+API_PSTYLES = [None, None, "Q", "Q", "C", "C", "D", "N", "F", "F"]
 API_RSTYLES = [None, "X", "X", "Y", "Z", "W"]
 
 
@@ -33,11 +34,11 @@ def api_doc(rng):
 
 
 def unmerged_siblings(forest):
-    """two adjacent sibling elements with the same name and attributes, other than the default (fresh) p"""
+    """two adjacent sibling elements with the same name and attributes, other than the fresh ones (default p, section)"""
     prev = None
     for n in forest:
         if "name" in n:
-            if prev is not None and n["name"] != "p" and prev["name"] == n["name"] and prev["attrs"] == n["attrs"]:
+            if prev is not None and n["name"] not in ("p", "section") and prev["name"] == n["name"] and prev["attrs"] == n["attrs"]:
                 return n["name"], n["attrs"]
             r = unmerged_siblings(n["children"])
             if r:
@@ -51,7 +52,7 @@ def unmerged_siblings(forest):
 def api_stream(ctx, dist):
     rng = ctx.rng
     terms, metas = [], []
-    styles = [X("w:style", {"w:type": "paragraph", "w:styleId": s}, [X("w:name", {"w:val": "Style " + s})]) for s in "QCDN"] + \
+    styles = [X("w:style", {"w:type": "paragraph", "w:styleId": s}, [X("w:name", {"w:val": "Style " + s})]) for s in "QCDNF"] + \
              [X("w:style", {"w:type": "character", "w:styleId": s}, [X("w:name", {"w:val": "Char " + s})]) for s in "XYZW"]
     for i in range(600 if ctx.thorough else 80):
         pkg = gen_xml.Package()
@@ -69,7 +70,16 @@ def api_stream(ctx, dist):
         else:
             # with ignore_empty_paragraphs=False every paragraph starts with an invisible force-write marker, which legitimately
             # keeps the last element of one paragraph and the first of the next apart: the adjacency rule is checked without it
-            bad = unmerged_siblings(O.strict_parse(html_.value)) if opts["ignore_empty_paragraphs"] else None
+            forest_ = O.strict_parse(html_.value)
+            bad = unmerged_siblings(forest_) if opts["ignore_empty_paragraphs"] else None
+            # the other direction: a :fresh element is never merged into the element before it — one <section> per F paragraph that is kept
+            n_sections = sum(1 for nd in forest_ if nd.get("name") == "section")
+            exp_sections = sum(1 for p_ in pkg.body if p_.find_child_or_null("w:pPr").find_child_or_null("w:pStyle").attributes.get("w:val") == "F"
+                               and (not opts["ignore_empty_paragraphs"] or any(
+                                   t_.children for r_ in p_.children if r_.name == "w:r" for t_ in r_.children if t_.name == "w:t")))
+            if not bad and n_sections != exp_sections:
+                ctx.violation("oracle", ":fresh elements were merged (or lost): %d <section> elements for %d kept paragraphs mapped to section:fresh:separator" % (n_sections, exp_sections),
+                              dict(meta, observed=html_.value[:600], fresh_sections=exp_sections), True)
             if bad:
                 ctx.violation("oracle", "adjacent sibling elements <%s %s> that are not :fresh were not merged" % bad,
                               dict(meta, observed=html_.value[:600]), True)
